@@ -20,6 +20,14 @@ CLAIMS = {
          "Coq proof model = spec (BFS frontier = DFS walk by flat_map associativity; construction lemmas) + correspondence over five entry points + spec oracle"),
  "C04": ("Theorems on the specification that the model provably computes (C04_model_is_spec): C04_paths_truthful (indexing the document along a reported path reaches the reported node), C04_paths_distinct, C04_values_same (without paths = with paths, stripped), C04_modifiers_commute, C04_concrete_refuses_multi; for all paths and all well-formed documents.",
          "Coq proofs on the walk specification (nested induction, NoDup of flat_map) + model = spec + correspondence with modifiers in both orders + direct re-indexing oracle on the implementation"),
+ "C05": ("Theorem C05_verdict: for every rule with an API-built path and a value-kind and/or/xor condition tree (casts allowed) and every well-formed non-empty document, the model of Rule.test equals the specification: valid iff every node selected by the walk satisfies the tree, untested when nothing is selected, failures = the unsatisfied selected nodes in order with index, value and true concrete path (C04); C05_reason: every failing item has at least one reason, for any tree (induction on the truth tables the code assembles).",
+         "Coq proofs: model = spec for rule tests (selection, judge, failures), reasons_nonempty by induction on condition trees + correspondence + spec oracle"),
+ "C06": ("Theorems C06_model_is_spec (Schema.validate model = spec), C06_conj (validity = conjunction, failures = sum, tested = count), C06_sorted (stable sort by path length: Permutation + StronglySorted + ties keep order), C06_perm (cast-free schemas: every permutation of the rule list gives the same aggregates and a permutation of the per-rule verdicts).",
+         "Coq proofs (insertion sort = stable permutation, permutation invariance of forallb / sums, model = spec) + correspondence on permuted schemas + direct permutation / report oracle on the implementation"),
+ "C07": ("Theorem C07_total: for every schema of rules in the rule domain (API-built plain paths, buildable value-kind trees over all 32 callables, with or without casts) and every well-formed non-empty document, the model of Schema.validate - running the translated callable bodies under the translated except clauses - returns a result (no Err); C07_rule_total for Rule.test.",
+         "Coq proof of totality as a corollary of model = spec (error-class lemmas for every operator; except clauses translated from source) + malformed-document correspondence stream"),
+ "C15": ("Theorems C15_rule/schema_model_is_spec (casts included), and on the specification: C15_cast_applied (a castable selected node holds its cast value in the judged copy), C15_uncastable_left, C15_everywhere_else (every position that is neither a cast node nor above one reads type-exactly as in the input; get/set lemmas over dict keys of any type and list indices), C15_schema_cast_data (fold over rules in application order, selections on the original).",
+         "Coq proofs (get_at / set_at algebra, divergence of distinct walk paths, fold invariants; model = spec) + correspondence on cast-dense documents"),
 }
 
 def chk(pid):
